@@ -137,7 +137,7 @@ def cases(datasets, configs, schemes, flags=(1, 0), namings=("ints", "letters"),
 
 
 def stage(name, prop, cases_fn, nontrivial=None, extra_aux=None, procs=None):
-    aux = {"prop": prop, "auxlogged": 1}
+    aux = {"prop": prop, "auxlogged": 1, "biofull": 0}
     if extra_aux:
         aux.update(extra_aux)
     return Stage(name, "Trace_Algo", algorun.run_case, cases_fn, nontrivial or (lambda r: r["out"] == "consensus"),
